@@ -12,13 +12,19 @@ Fixpoint strs_eqb (a b : list pystr) : bool :=
 Inductive case :=
 | CStep (c : stepcase)                       (* one recorded resolve() call *)
 | CDet (kind : nat) (ok : bool)              (* a determinism experiment run by the harness: identical dumps? *)
-| CBlocks (s : pystr) (impl : list pystr).   (* re.findall(r"\{[^\}]+\}", s) of the constructors *)
+| CBlocks (s : pystr) (impl : list pystr)    (* re.findall(r"\{[^\}]+\}", s) of the constructors *)
+| CSort (g : graph) (impl : option graph).   (* a direct call of graph_utils.sort_nodes_by_attr (None: it raised) *)
 
 Definition corr_ok (c : case) : bool :=
   match c with
   | CStep s => step_corr s
   | CDet _ _ => true
   | CBlocks s impl => strs_eqb (find_blocks s) impl
+  | CSort g impl => match sort_nodes_by_attr g, impl with
+                    | Ok h, Some h' => graph_eqb h h'
+                    | Err _, None => true
+                    | _, _ => false
+                    end
   end.
 
 Definition step_fail (c : stepcase) : nat :=
@@ -37,6 +43,7 @@ Definition prop_fail (c : case) : nat :=
   | CStep s => step_fail s
   | CDet kind ok => if ok then 0%nat else (10 + kind)%nat
   | CBlocks _ _ => 0%nat
+  | CSort _ _ => 0%nat
   end.
 Definition in_class (c : case) : bool :=
   match c with
